@@ -36,6 +36,32 @@ Proof.
 Qed.
 Print Assumptions queue_fifo.
 
+(** A queue without commands is never marked as running, and every transition that
+    completes a command (q_done grows: a no-op executed, a response matched)
+    leaves its queue not running - so the next command of that queue can start
+    (processNewCommandFromCmdQueue skips a queue only while IsRunning).  On the
+    real driver the same state invariant is read after every quiet point of the
+    copy-mode runs (zero-byte copies, copies without flush, no-ops, kernels). *)
+Theorem idle_queue_not_running : forall c cs ps sched s q qq,
+  run c (init_ctx cs ps) sched = Some s ->
+  nth_error (queues s) q = Some qq -> q_cmds qq = [] -> q_running qq = false.
+Proof.
+  intros c cs ps sched s q qq H Hq E.
+  destruct (queue_fifo c cs ps sched s H q qq Hq) as (_ & _ & R).
+  destruct (q_running qq); [exfalso; apply (R eq_refl); exact E|reflexivity].
+Qed.
+Print Assumptions idle_queue_not_running.
+
+Theorem completion_clears_running : forall c cs ps sched s l s' q qq qq',
+  run c (init_ctx cs ps) sched = Some s -> step c s l = Some s' ->
+  nth_error (queues s) q = Some qq -> nth_error (queues s') q = Some qq' ->
+  q_done qq' <> q_done qq -> q_running qq' = false.
+Proof.
+  intros c cs ps sched s l s' q qq qq' H Hs Hq Hq' D.
+  exact (step_completion_clears_running c s l s' q qq qq' (run_fifo c sched _ _ (init_ctx_fifo cs ps) H) Hs Hq Hq' D).
+Qed.
+Print Assumptions completion_clears_running.
+
 (** Queues do not disturb each other: the history of queue q consists of
     exactly the Enqueue calls addressed to q, in the order they were made;
     each thread's calls appear in its program order; a transition changes
